@@ -16,6 +16,8 @@ REPO = os.environ.get('VERIF_REPO', '/repo')
 HARNESS = {
     'c15': {'args': [('buf', 'u8x8'), ('len', 'usize'), ('off', 'usize')], 'bound': 'table <= 8 bytes', 'assume': 'len <= 8',
             'call': 'check_c15(&buf[..len], off)', 'unwind': 10},
+    'c15_get': {'args': [('buf', 'u8x4'), ('len', 'usize'), ('off', 'usize')], 'bound': 'table <= 4 bytes', 'assume': 'len <= 4',
+                'call': 'check_c15_get(&buf[..len], off)', 'unwind': 6},
     'c09': {'args': [('buf', 'u8x12'), ('len', 'usize'), ('idx', 'usize'), ('little', 'bool')], 'bound': 'table <= 12 bytes (u32 entries)', 'assume': 'len <= 12',
             'call': 'check_c09(&buf[..len], idx, little)', 'unwind': 6},
     'c09_len': {'args': [('buf', 'u8x24'), ('len', 'usize'), ('little', 'bool')], 'bound': 'table <= 24 bytes (u32 entries and Rel/ELF32 entries)', 'assume': 'len <= 24',
@@ -193,14 +195,14 @@ def search(harness, timeout=420):
 
 PAIRING = [
     (r'^C04\.(u8|u16|u32|u64|i32|i64)\.', lambda m: 'c04_' + m.group(1)),
-    (r'^C15\.(get_raw|get)\.', lambda m: 'c15'),
+    (r'^C15\.get_raw\.', lambda m: 'c15'),
+    (r'^C15\.get\.', lambda m: 'c15_get'),
     (r'^C09\.(len_is_floor|is_empty_iff_len0)', lambda m: 'c09_len'),
     (r'^C09\.(get\.|next\.|iter)', lambda m: 'c09'),
     (r'^C10\.(verify_ident|parse_ident|from_ei_data)\.', lambda m: 'c10'),
     (r'^(C12\.sysv_hash|C11\.gnu_hash|proof:hash::sysv_hash|proof:hash::gnu_hash)', lambda m: 'hash'),
     (r'^C14\.(note|iter)\.', lambda m: ['c14_a4', 'c14_a8', 'c14_a3']),
     (r'^C03\.(section_range|segment_range|section_data|segment_data)\.', lambda m: 'c03_range'),
-    (r'^C13\.get_requirement\.', lambda m: 'c13_req'),
     (r'^C1[36]\.VerNeedIterator\.next\.', lambda m: 'c13_need'),
     (r'^C1[36]\.VerDefIterator\.next\.', lambda m: 'c13_def'),
     (r'^C02\.parse_at\.[a-z_]+@ParseAt for (\w+)::parse_at$', lambda m: 'c02_' + m.group(1).lower()),
